@@ -1,5 +1,6 @@
 SPECIFICATION Spec
 CONSTANTS
   Small = FALSE
+  Mix = FALSE
   EmitOn = TRUE
 CHECK_DEADLOCK FALSE
